@@ -195,15 +195,35 @@ class C09(vlib.Check):
                             return {"key": "convert-back-differs:%s->%s" % (spec["kind"], via), "what": "conversion and back changed the fingerprint"}
                     except Exception as e:  # noqa: BLE001
                         return {"key": "convert-raises:" + type(e).__name__, "what": "conversion raised %r" % e}
+            # no mutable state is shared: index buffers, counts / props / fold-cache dictionaries
+            shared = []
+            if len(f.indices) and np.shares_memory(c.indices, f.indices):
+                shared.append("indices buffer")
+            if spec["kind"] != "bit" and c.counts is f.counts:
+                shared.append("counts dict")
+            if c.props is f.props:
+                shared.append("props dict")
+            if c.folded_fingerprint is f.folded_fingerprint:
+                shared.append("fold cache")
+            if shared:
+                return {"key": "copy-shares-state:%s:%s" % (case["how"], "+".join(shared)),
+                        "what": "the copy (%s) shares its %s with the original" % (case["how"], ", ".join(shared))}
+            for k2 in KINDS:      # conversions too
+                try:
+                    conv = CLS[k2].from_fingerprint(f)
+                except Exception:  # noqa: BLE001
+                    continue
+                if len(f.indices) and np.shares_memory(conv.indices, f.indices):
+                    return {"key": "conversion-shares-state:%s->%s" % (spec["kind"], k2),
+                            "what": "converting to %s returns an object that shares the index buffer of the original" % k2}
             # independence: mutate the copy through a public setter, the original must not change
             before = (dump_fp(f), dict(f.props))
             mut = case["mut"]
             try:
                 if mut == "indices":
-                    if c.__class__ is CLS["bit"]:
-                        c.indices = np.array([0], dtype=np.int64)
-                    else:
-                        c.indices[...] = 0 if len(c.indices) else 0
+                    if len(c.indices):
+                        c.indices[...] = 0          # in place
+                    c.indices = np.array([0], dtype=np.int64)
                 elif mut == "counts" and spec["kind"] != "bit":
                     for k in list(c.counts):
                         c.counts[k] = 99
@@ -233,7 +253,7 @@ class C09(vlib.Check):
             f.level = 31
             f.set_prop("tag", 9)
             if len(f.indices):
-                f.indices[0] = f.indices[0] + 0
+                f.indices[...] = 0                  # in place
             if spec["kind"] != "bit":
                 for k in list(f.counts):
                     f.counts[k] = 42
